@@ -68,6 +68,11 @@ Definition read_n (n : Z) (src : list Z) : option (list Z * list Z) :=
   if Z.of_nat (length src) <? n then None
   else Some (firstn (Z.to_nat n) src, skipn (Z.to_nat n) src).
 
+(* zip->Skip(n): advance min(n, remaining); written so that a huge declared
+   length never builds a huge nat *)
+Definition skip_z (n : Z) (src : list Z) : list Z :=
+  if Z.of_nat (length src) <=? n then [] else skipn (Z.to_nat n) src.
+
 Record header := mkH { h_timecnt : Z; h_typecnt : Z; h_charcnt : Z; h_leapcnt : Z; h_isstdcnt : Z; h_isutcnt : Z }.
 
 Definition sub_bytes (bs : list Z) (off len : nat) : list Z := firstn len (skipn off bs).
@@ -268,7 +273,7 @@ Definition extend_transitions (trans : list transition) (types : list ttype) (ab
   end.
 
 (* ---- the civil-second pass of Load (:793-808) ---- *)
-Fixpoint civil_pass (abbrs : list Z) (types : list ttype) (ttp : ttype) (prev : option fields)
+Fixpoint civil_pass (abbrs : list Z) (types : list ttype) (ttp : ttype) (prev : option (fields * Z))
          (trans : list transition) (acc : list transition) : res (option (list transition)) :=
   match trans with
   | [] => OK (Some (rev acc))
@@ -279,9 +284,11 @@ Fixpoint civil_pass (abbrs : list Z) (types : list ttype) (ttp : ttype) (prev : 
       do b <- local_time_tt abbrs (tr_time tr) ttp' ;;
       let tr' := mkTr (tr_time tr) (tr_type tr) (al_cs b) pcs in
       match prev with
-      | Some pc => if negb (lt64 pc (al_cs b)) then OK None
-                   else civil_pass abbrs types ttp' (Some (al_cs b)) rest (tr' :: acc)
-      | None => civil_pass abbrs types ttp' (Some (al_cs b)) rest (tr' :: acc)
+      | Some (pc, pt) =>
+          if negb (lt64 pc (al_cs b)) then OK None
+          else if negb (pt <? tr_time tr) then OK None
+          else civil_pass abbrs types ttp' (Some (al_cs b, tr_time tr)) rest (tr' :: acc)
+      | None => civil_pass abbrs types ttp' (Some (al_cs b, tr_time tr)) rest (tr' :: acc)
       end
   end.
 
@@ -325,6 +332,7 @@ Definition footer_read (src : list Z) : option (list Z) :=
   end.
 
 Definition big_bang : Z := - 2 ^ src_big_bang_shift.
+Definition time_in_range (t : Z) : bool := (big_bang <=? t) && (t <=? 2 ^ 59).
 
 (* ---- TimeZoneInfo::Load(ZoneInfoSource ptr) (:629-819) ---- *)
 Definition load_bytes (src : list Z) : res (option zone) :=
@@ -338,7 +346,7 @@ Definition load_bytes (src : list Z) : res (option zone) :=
       (* second header for version >= 2 *)
       let step2 : option (header * Z * Z * list Z) :=
         if negb (version_of tzh1 =? 0) then
-          let src2 := skipn (Z.to_nat (data_length hdr1 4)) src1 in
+          let src2 := skip_z (data_length hdr1 4) src1 in
           match read_n 44 src2 with
           | None => None
           | Some (tzh2, src3) =>
@@ -365,7 +373,10 @@ Definition load_bytes (src : list Z) : res (option zone) :=
           let typecnt := Z.to_nat (h_typecnt hdr) in
           let tl := Z.to_nat time_len in
           let times := map (if time_len =? 4 then decode32 else decode64) (chunks timecnt tl tbuf) in
-          if negb (strictly_increasing times) then OK None else
+          (* each time is validated as it is decoded, before the order check of
+             the next one: reject iff the first offending index is a range error
+             or an order error - both give `return false` *)
+          if negb (strictly_increasing times) || negb (forallb time_in_range times) then OK None else
           let bp1 := skipn (timecnt * tl) tbuf in
           let idxs := firstn timecnt bp1 in
           if negb (forallb (fun i => i <? h_typecnt hdr) idxs) then OK None else
